@@ -131,6 +131,8 @@ inductive Event
   | mutate (slot val : Nat)
   | restart
   | wipe
+  /-- the process dies in the middle of a build: the database rolls back to the last commit -/
+  | crash
   deriving Repr, Inhabited
 
 /-- a store: results plus the ghost record of the execution that produced each of them -/
@@ -149,6 +151,9 @@ structure St where
   mem : Store := {}
   db : Store := {}
   dbIter : Nat := 0
+  /-- the last committed database state (`buildComplete` commits the build's transaction) -/
+  cdb : Store := {}
+  cdbIter : Nat := 0
   status : Key → Status := fun _ => .idle
   validSeen : Key → Option Bool := fun _ => none
   task : Key → Task := fun _ => {}
@@ -250,7 +255,11 @@ def step (P : Program) (s : St) : Event → Option St
   | .dbGet k found =>
     if s.registered k && found == ((s.mem.res k).builtAt != 0) then some s else none
   | .dbBegin => some s
-  | .dbEnd => some s
+  | .dbEnd =>
+    -- buildComplete(): the transaction of this build is committed (after setCurrentIteration)
+    if !s.started || s.dbIter == s.epoch then
+      some { s with cdb := s.db, cdbIter := s.dbIter, pendingDropped := s.pendingDropped || !s.pending.isEmpty }
+    else none
   | .scanning k =>
     -- scanRule: the rule starts being scanned; single-use dependencies are dropped first
     if s.started && s.status k == .idle && s.registered k then
@@ -379,6 +388,13 @@ def step (P : Program) (s : St) : Event → Option St
     else none
   | .wipe =>
     if s.target.isNone then some ({} : St) else none
+  | .crash =>
+    -- killed mid-build: memory is lost, the database is what the last commit left; a new process starts
+    if s.target.isSome then
+      some { s with mem := s.cdb, db := s.cdb, epoch := s.cdbIter, dbIter := s.cdbIter,
+                    status := fun _ => .idle, validSeen := fun _ => none, task := fun _ => {},
+                    registered := fun _ => false, pending := [], target := none, started := false }
+    else none
 
 def run (P : Program) : St → List Event → Option St
   | s, [] => some s
